@@ -268,11 +268,13 @@ class DefaultPredictionStrategy(object):
             observed = settings.observation_nan_policy._get_observed(
                 self.train_labels, torch.Size((self.train_labels.shape[-1],))
             )
-            mean_cache = torch.full_like(self.train_labels, torch.nan)
             kernel = MaskedLinearOperator(
                 train_train_covar.evaluate_kernel(), observed.reshape(-1), observed.reshape(-1)
             )
-            mean_cache[..., observed] = kernel.solve(train_labels_offset[..., observed, :]).squeeze(-1)
+            observed_cache = kernel.solve(train_labels_offset[..., observed, :]).squeeze(-1)
+            # (the solve may have batch dimensions that the labels lack, e.g. batched hyperparameters on shared data)
+            mean_cache = observed_cache.new_full((*observed_cache.shape[:-1], self.train_labels.shape[-1]), torch.nan)
+            mean_cache[..., observed] = observed_cache
         else:  # 'fill'
             # Fill all rows and columns in the kernel matrix corresponding to the missing observations with 0.
             # Don't touch the corresponding diagonal elements to ensure a unique solution.
@@ -292,7 +294,9 @@ class DefaultPredictionStrategy(object):
             # side - which the stopping rule of an iterative solve is relative to - that of the observed entries.
             train_labels_offset = torch.nan_to_num(train_labels_offset, nan=0.0)
             mean_cache = kernel.solve(train_labels_offset).squeeze(-1)
-            mean_cache[missing] = torch.nan  # Ensure that nobody expects these values to be valid.
+            # Ensure that nobody expects these values to be valid (`missing` broadcasts over batch dimensions that only
+            # the solve has; no in-place write into the result of the solve, which autograd needs)
+            mean_cache = torch.where(missing, torch.full_like(mean_cache, torch.nan), mean_cache)
         if settings.detach_test_caches.on():
             mean_cache = mean_cache.detach()
 
